@@ -640,20 +640,24 @@ impl Interp {
                 let lo = Self::pat_val(a);
                 let hi = Self::pat_val(b);
                 let same_kind = std::mem::discriminant(&to_val(&lo)) == std::mem::discriminant(&to_val(v));
-                if !same_kind {
-                    return Err(Stop::Unspecified("match scrutinee of another kind than the patterns".into()));
+                // an integer range and a float scrutinee compare as doubles (defined);
+                // any other kind mix has no defined ordering: don't-care zone
+                let numeric_mix = matches!(lo, RV::Int(_)) && matches!(v, RV::Float(_));
+                if !same_kind && !numeric_mix {
+                    return Err(Stop::Unspecified("match scrutinee of another kind than the range patterns".into()));
                 }
                 let ge = self.binop(">=", v, &lo)?;
                 let up = self.binop(if *inc { "<=" } else { "<" }, v, &hi)?;
                 Ok(matches!(ge, RV::Bool(true)) && matches!(up, RV::Bool(true)))
             }
             lit => {
+                // "a pattern equal to it": language equality, which is total
+                // (values of different kinds are simply not equal; 1 == 1.0)
                 let pv = Self::pat_val(lit);
-                let same_kind = std::mem::discriminant(&to_val(&pv)) == std::mem::discriminant(&to_val(v));
-                if !same_kind {
-                    return Err(Stop::Unspecified("match scrutinee of another kind than the patterns".into()));
+                match rv_eq(&pv, v) {
+                    Some(b) => Ok(b),
+                    None => Err(Stop::Unspecified("match pattern against a value whose equality is unspecified".into())),
                 }
-                Ok(rv_eq(&pv, v).unwrap_or(false))
             }
         }
     }
